@@ -4,6 +4,7 @@ import (
 	"bufio"
 	"bytes"
 	"fmt"
+	"time"
 
 	"github.com/sqlc-dev/doubleclick/lexer"
 	"github.com/sqlc-dev/doubleclick/token"
@@ -47,13 +48,41 @@ func lexCmd(in *bufio.Scanner, out *bufio.Writer, args []string) error {
 	return in.Err()
 }
 
+// safeTokenize is lexer.Tokenize with two guards that turn non-termination into an observation: the NextToken loop is
+// capped at len(b)+2 tokens (C12: at most one token per byte plus one), and the whole run has a watchdog.
 func safeTokenize(b []byte) (items []lexer.Item, pmsg string) {
-	defer func() {
-		if r := recover(); r != nil {
-			pmsg = fmt.Sprint(r)
+	type res struct {
+		items []lexer.Item
+		pmsg  string
+	}
+	ch := make(chan res, 1)
+	go func() {
+		var r res
+		defer func() {
+			if x := recover(); x != nil {
+				r.pmsg = fmt.Sprint(x)
+			}
+			ch <- r
+		}()
+		l := lexer.New(bytes.NewReader(b))
+		for {
+			it := l.NextToken()
+			r.items = append(r.items, it)
+			if it.Token == token.EOF {
+				break
+			}
+			if len(r.items) > len(b)+2 {
+				r.pmsg = "RUNAWAY: more than len+2 tokens without reaching EOF (Tokenize would not terminate)"
+				break
+			}
 		}
 	}()
-	return lexer.Tokenize(bytes.NewReader(b)), ""
+	select {
+	case r := <-ch:
+		return r.items, r.pmsg
+	case <-time.After(20 * time.Second):
+		return nil, "HANG: a NextToken call did not return within 20 s"
+	}
 }
 
 // lexClauses checks C12 (one EOF, last; count bound; EOF sticky) and C13 (a)-(b) on the implementation.
